@@ -95,9 +95,16 @@ NXMsgLayout == [
                                        List("actions", "action")>>,
   nxt_packet_in       |-> NXH(17) \o <<U("buffer_id", 4), U("total_len", 2), U("reason", 1), U("table_id", 1),
                                        U("cookie", 8), LenOf("match"), Pad(6), ListN("match", "nxm"),
-                                       Pad8("match"), Pad(2), Rest("data")>> ]
+                                       Pad8("match"), Pad(2), Rest("data")>>,
+  \* ofp_flow_mod_table_id: an ordinary OFPT_FLOW_MOD whose command field carries the table id in its
+  \* high byte (NXT_FLOW_MOD_TABLE_ID extension); same layout as ofp_flow_mod
+  nx_ofp_flow_mod_table_id |-> <<Const(<<1>>), Const(<<14>>), LenF, U("xid", 4), Sub("match", "match"),
+                                 U("cookie", 8), U("command", 2), U("idle_timeout", 2), U("hard_timeout", 2),
+                                 U("priority", 2), U("buffer_id", 4), U("out_port", 2), U("flags", 2),
+                                 List("actions", "action")>> ]
 NXMsgSubtype == [ nx_role_request |-> 10, nx_role_reply |-> 11, nx_packet_in_format |-> 16,
   nx_flow_mod_table_id |-> 15, nx_async_config |-> 19, nx_flow_mod |-> 13, nxt_packet_in |-> 17 ]
 NXMsgSize == [ nx_role_request |-> 20, nx_role_reply |-> 20, nx_packet_in_format |-> 20,
-  nx_flow_mod_table_id |-> 24, nx_async_config |-> 40, nx_flow_mod |-> 48, nxt_packet_in |-> 42 ]
+  nx_flow_mod_table_id |-> 24, nx_async_config |-> 40, nx_flow_mod |-> 48, nxt_packet_in |-> 42,
+  nx_ofp_flow_mod_table_id |-> 72 ]
 =============================================================================
